@@ -393,6 +393,9 @@ def run(ctx):
                   mi.relpath)
     with ctx.obligation('C08.NOPRNG', 'package-wide weak randomness', None, 'btc_hd_wallet/') as ob:
         ctrl = _weak_randomness(ast.parse(PLANTED), set())
+        gen_roots = [p.get_function(q) for q in ('bip39.mnemonic_from_entropy_bits', 'base_wallet.BaseWallet.new_wallet',
+                                                 'base_wallet.BaseWallet.from_entropy_bits')] + [fi for fi, _ in draws]
+        gen_closure = set(p.reachable_from(gen_roots))
         if len(ctrl) < 8:
             ob.undecided('positive control failed: %d of 8+ planted constructs recognised' % len(ctrl))
         for m in p.modules.values():
@@ -403,6 +406,14 @@ def run(ctx):
                     if T.is_op(v, 'CSPRNG'):
                         rebound.add(name)
             for what, node in _weak_randomness(m.tree, rebound):
+                if what.startswith('time/pid/address'):
+                    # such a value matters where entropy is produced: in the functions the generating entry points reach
+                    # (a __hash__ method calling hash(), a timestamp in an export helper are not entropy sources)
+                    holder = [f_ for f_ in p.functions.values() if f_.module is m
+                              and f_.node.lineno <= node.lineno <= getattr(f_.node, 'end_lineno', f_.node.lineno)]
+                    if holder and not any(f_ in gen_closure for f_ in holder):
+                        ob.note('%s at %s:%d is outside the entropy-generating closure' % (what, m.relpath, node.lineno))
+                        continue
                 ob.require(False, what, '%s:%d' % (m.relpath, node.lineno), found=ast.unparse(node)[:80])
             ob.evaluations += 1
             ob.saw(m.relpath)
